@@ -280,7 +280,7 @@ func (m *ldbManager) Get(identifier types.HashHeight) DB {
 
 	u := newMergedDb([]db{
 		newMemDBInternal(),
-		newSkipDelete(
+		newSkipTombstones(
 			newMergedDb([]db{
 				rawChanges,
 				newSubDB(frontierByte, newLevelDBSnapshotWrapper(snapshot)),
